@@ -6,6 +6,7 @@ package canary
 import (
 	"errors"
 	"fmt"
+	"slices"
 	"strings"
 )
 
@@ -223,3 +224,7 @@ func ViaInterface(s sink, k string) { s.Put(k) }
 // ---- goroutines -------------------------------------------------------------------------------
 
 func Spawns(f func()) { go f() }
+
+// ---- compaction ------------------------------------------------------------------------------
+
+func Compacts(xs []string) []string { return slices.Compact(xs) }
